@@ -301,6 +301,15 @@ def rule_sort2(prog, sigs):
                 for part in p.heap[lst.oid].parts:
                     nstore += 1
                     ok, how = _stored_ok(I, part.val, s.required, p)
+                    pv = part.val
+                    if not ok and isinstance(pv, Sym) and pv.meta and \
+                            pv.meta[0] in ('elem', 'next', 'widened',
+                                           'loopvar'):
+                        # what is stored comes out of an iterator / loop
+                        # whose filtering is not visible here: no verdict
+                        raise Inconclusive(
+                            'R-SORT-2', 'wrap_subformulas of %s.%s stores %r'
+                            % (lang, name, pv), s.wrap.where())
                     if ok:
                         r.ok()
                     else:
